@@ -57,6 +57,9 @@ MIN = {'quick': {'distinct': 20000,
                             'word starting with # or %%': 60,
                             'gf_separator differs from the labels': 30,
                             'word with non-ASCII space character': 30,
+                            'file in latin-1': 150, 'file in utf-16': 50,
+                            'tigerxml: encoding argument differs from the '
+                            'declaration': 50,
                             'discobrackets token that is a bare '
                             'parenthesis': 40,
                             'cross-format agreement': 200,
@@ -342,10 +345,25 @@ def run_case(ctx, case, probe_obj=None):
                                      with_vroot=not no_vroot,
                                      sid_format=eo.get('sid_format', 's%d'),
                                      secedges=eo.get('secedges', False),
-                                     omit_optional=eo.get('omit_optional', False))
+                                     omit_optional=eo.get('omit_optional', False),
+                                     encoding=case.get('encoding', 'utf-8'))
     enc = case.get('encoding', 'utf-8')
     path = ctx.path('.' + fmt + ('.gz' if case.get('gz') else ''))
-    data = text.encode('utf-8' if fmt == 'tigerxml' else enc)
+    try:
+        data = text.encode(enc)
+    except UnicodeError:
+        enc = case['encoding'] = 'utf-8'
+        if fmt == 'tigerxml':
+            text = text.replace('encoding="latin-1"', 'encoding="utf-8"', 1)
+        data = text.encode(enc)
+    if enc != 'utf-8':
+        ctx.stratum('file in ' + enc)
+    if fmt == 'tigerxml':
+        # "The encoding argument is ignored here": the declaration counts
+        enc = case.get('encoding_argument', enc)
+        if enc != case.get('encoding', 'utf-8'):
+            ctx.stratum('tigerxml: encoding argument differs from the '
+                        'declaration')
     if case.get('gz'):
         if case.get('layout_seed', 0) % 2 and len(data) > 20:
             # a gzip file made of two members (cat a.gz b.gz > all.gz)
@@ -528,6 +546,13 @@ def draw_case(rng, fmt, quick):
             'sep': sep, 'mismatch': mismatch,
             'gz': fmt != 'tigerxml' and rng.random() < 0.15,
             'layout_seed': rng.randrange(10 ** 6)}
+    r = rng.random()
+    if r < 0.25:
+        case['encoding'] = 'latin-1'    # falls back to utf-8 if not encodable
+    elif r < 0.33 and fmt != 'tigerxml':
+        case['encoding'] = 'utf-16'
+    if fmt == 'tigerxml' and rng.random() < 0.4:
+        case['encoding_argument'] = rng.choice(['utf-8', 'latin-1', 'ascii'])
     big = rng.random() < 0.012
     case['bank'] = make_bank(rng, fmt, decorated, sep, quick, big=big)
     case['big'] = big
